@@ -98,7 +98,8 @@ def gen_case(rng, default_cap):
     bin_reply = rng.random() < 0.9
     max_matches = None if rng.random() < 0.7 else rng.choice([0, 1, 2])
     path = None if rng.random() < 0.5 else b"p/f"
-    return dict(mode=mode, b=b, strategy=strategy, capacity=capacity, alloc=alloc, stream=stream, hist=hist,
+    null = path is not None and rng.random() < 0.15
+    return dict(null=null, mode=mode, b=b, strategy=strategy, capacity=capacity, alloc=alloc, stream=stream, hist=hist,
                 needles=needles, invert=invert, passthru=passthru, stop=stop, bin_reply=bin_reply,
                 max_matches=max_matches, path=path, cap=default_cap)
 
@@ -131,7 +132,7 @@ def case_lines(c):
                       vlist([vbytes(n) for n in c["needles"]]), vbool(c["invert"]), vbool(c["passthru"]),
                       vopt(None if c["stop"] is None else str(c["stop"])), vbool(c["bin_reply"]), str(c["cap"]),
                       vopt(None if c["max_matches"] is None else str(c["max_matches"])),
-                      vopt(None if c["path"] is None else vbytes(c["path"])), str(npre)])
+                      vopt(None if c["path"] is None else vbytes(c["path"])), str(npre), vbool(c.get("null", False))])
     npre, rest = peek_sim(c["hist"], len(c["stream"]))
     return mk(c["hist"], 0), mk(rest, npre)
 
@@ -218,6 +219,9 @@ def check_lib_cases(ctx, cases, stats, heavy=False):
             if bad:
                 ctx.violation("a line containing the binary byte was handed to the sink", dict(kind=1401, case=c, line=cl, events=repr(events)))
             # (b) nothing printed contains the byte (b = NUL: the property's own wording)
+            if c.get("null") and c["path"] is not None:
+                outs = [o.replace(c["path"] + b"\x00", c["path"] + b":") for o in outs]   # the NULs --null itself writes
+                std_out = outs[0]
             if b == 0 and any(b"\x00" in o for o in outs):
                 ctx.violation("NUL byte in printer output without text mode", dict(kind=1401, case=c, line=cl, outs=repr(outs)))
             # (c) notice / warning exactly when the property says (plain sink behaviour only)
@@ -360,7 +364,7 @@ def predict_file(c_common, content, path, mm, cap, stdin=False):
 def model_line(c):
     return vlist([str(c["mode"]), str(c["b"]), str(c["strategy"]), str(c["capacity"]), "()", hist_val(c["hist"]),
                   vbytes(c["stream"]), vlist([vbytes(n) for n in c["needles"]]), vbool(c["invert"]), vbool(c["passthru"]),
-                  "()", "1", str(c["cap"]), "()", vopt(vbytes(c["path"])), str(c["npre"])])
+                  "()", "1", str(c["cap"]), "()", vopt(vbytes(c["path"])), str(c["npre"]), vbool(c.get("null", False))])
 
 
 def run_rg(args, cwd, stdin_path=None):
@@ -425,8 +429,10 @@ def cli_round(ctx, rng, cap, stats, big_ok, fixed=None, invocations=None):
             if big_ok and it < 3:
                 # a traversed / named big file in plain standard mode, both strategies
                 flag, explicit, mm, om, invert, stdin_name = 0, it == 2, it == 1, "std", False, None
+            null = rng.random() < 0.25 and om != "json"
             if invocations:
-                flag, explicit, mm, om = invocations[it]
+                flag, explicit, mm, om = invocations[it][:4]
+                null = len(invocations[it]) > 4 and invocations[it][4]
                 invert, stdin_name = False, None
             args = ["-F", "-e", "a", "-e", "ab", "-N", "--no-heading", "-H", "--sort", "path",
                     "--mmap" if mm else "--no-mmap"]
@@ -436,6 +442,8 @@ def cli_round(ctx, rng, cap, stats, big_ok, fixed=None, invocations=None):
                 args.append("--text")
             if invert:
                 args.append("-v")
+            if null:
+                args.append("--null")
             args += {"std": [], "count": ["-c"], "lwm": ["-l"], "lwo": ["--files-without-match"],
                      "passthru": ["--passthru"], "A1": ["-A1"], "B1": ["-B1"], "C2": ["-C2"], "json": ["--json"],
                      "only": ["-o"], "replace": ["-r", "Z"], "multiline": ["-U"], "vimgrep": ["--vimgrep"],
@@ -459,7 +467,12 @@ def cli_round(ctx, rng, cap, stats, big_ok, fixed=None, invocations=None):
             if rc == 2:
                 ctx.violation("rg failed on a generated tree: %r" % err[:200], what)
                 continue
-            # ---- the property's own wording
+            # ---- the property's own wording.  -0/--null writes one NUL after every path: exactly those are set aside
+            raw_out = out
+            if null:
+                stats["cli_null"] += 1
+                for _, pth in targets:
+                    out = out.replace(pth + b"\x00", pth + (b"\n" if om in ("lwm", "lwo") else b":"))
             if flag != 2 and b"\x00" in out:
                 ctx.violation("NUL byte on stdout without --text", what)
                 continue
@@ -471,7 +484,7 @@ def cli_round(ctx, rng, cap, stats, big_ok, fixed=None, invocations=None):
             if om not in MODELLED:
                 continue
             # ---- model prediction, file by file
-            common = dict(mode=mode, b=b, needles=NEEDLES, invert=invert, passthru=(om == "passthru"))
+            common = dict(mode=mode, b=b, needles=NEEDLES, invert=invert, passthru=(om == "passthru"), null=null)
             cases = [predict_file(common, files[n], p, mm and not stdin_name, cap, stdin=bool(stdin_name)) for n, p in targets]
             mouts = par_model(1401, [model_line(c) for c in cases])
             pred = b""
@@ -484,7 +497,7 @@ def cli_round(ctx, rng, cap, stats, big_ok, fixed=None, invocations=None):
             if not ok:
                 ctx.violation("model failed on a CLI case: %s" % mo[:80], what, nfi=True)
                 continue
-            if pred != out:
+            if pred != raw_out:
                 what["model"] = repr(pred[:2000])
                 ctx.violation("rg stdout differs from the model's prediction (mode %s)" % om, what, nfi=True)
             # ---- direct statement of the property for plain standard output
@@ -574,7 +587,9 @@ def run(ctx):
     inv = [(0, False, True, "std"), (0, False, False, "std"), (0, True, True, "std"), (0, True, False, "std"),
            (1, False, True, "std")] + [(0, False, True, "multiline"), (0, True, True, "multiline"), (1, False, True, "multiline"),
                                   (0, False, True, "C2"), (0, True, True, "A1"), (0, False, True, "count"),
-                                  (0, True, True, "json"), (0, False, True, "only"), (0, True, False, "multiline")]
+                                  (0, True, True, "json"), (0, False, True, "only"), (0, True, False, "multiline"),
+                                  (0, False, False, "std", True), (0, True, True, "std", True), (1, False, True, "lwm", True),
+                                  (0, True, False, "A1", True)]
     cli_round(ctx, rng, default_cap, stats, big_ok=False, fixed=straddle_files(default_cap), invocations=inv)
     for r in range(ctx.count(8)):
         cli_round(ctx, rng, default_cap, stats, big_ok=(r % 3 == 0))
